@@ -46,7 +46,10 @@ class Repartition(Expr):
             self.operand("new_partitions") is not None
             or self.partition_size is not None
         ):
-            x = self.optimize(fuse=False)
+            # Describe the partitions this expression produces as it stands; the
+            # divisions of ``self.optimize()`` can differ (IO fusion or a filter
+            # pushed below a set_index change the partitioning of the frame)
+            x = self.lower_completely()
             return x._divisions()
         return self.new_divisions
 
